@@ -18,7 +18,7 @@ import z3
 
 from . import sym, libmodel
 from .sym import Havoc, Unsupported, PyRaise
-from .interp import Interp, Repo, CheckerError, free_funcs, free_consts
+from .interp import Interp, Repo, CheckerError, free_funcs, free_consts, LoopCheckEnd
 
 Z3_TIMEOUT_MS = int(os.environ.get('PYVC_Z3_TIMEOUT_MS', '20000'))
 CVC5_TIMEOUT_MS = int(os.environ.get('PYVC_CVC5_TIMEOUT_MS', '30000'))
@@ -125,6 +125,7 @@ def explore(repo, contract, case, max_paths=400):
         I.inline_ok = set(getattr(contract, 'inline', ()))
         I.flags = dict(ctx.get('flags', {}))
         I.protect = dict(H.protect)
+        I.loop_specs = contract.loops(case, ctx) if hasattr(contract, 'loops') else {}
         I.pc.extend(H.assumptions)
         I.assumptions.extend(H.assumptions)
         n0 = len(dec)
@@ -134,10 +135,13 @@ def explore(repo, contract, case, max_paths=400):
             outcome = ('return', ret)
         except PyRaise as e:
             outcome = ('raise', e.exc, e.msg)
+        except LoopCheckEnd as e:
+            outcome = ('loopcheck', str(e))
         except Unsupported as e:
             outcome = ('havoc', str(e))
         for k in range(n0, len(I.dec)):
-            stack.append(I.dec[:k] + [False])
+            if I.forkable[k]:
+                stack.append(I.dec[:k] + [False])
         pr = PathRun(list(I.dec), I, outcome, H, ctx)
         pr.state = sym.save_state()
         I.extra_axioms = list(sym.EXTRA)
@@ -170,7 +174,8 @@ def obligations_for(repo, contract, case):
         # the post may register further sums/compress symbols; run it first, then collect axioms
         posts = []
         try:
-            for item in contract.post(run.harness, case, run.outcome, I, run.ctx):
+            # a path that only checks one iteration of a loop against its invariant ends there: no postcondition
+            for item in (contract.post(run.harness, case, run.outcome, I, run.ctx) if run.outcome[0] != 'loopcheck' else ()):
                 posts.append(item)
         except Unsupported as e:
             posts.append(('post-unformed', Havoc(str(e)), None))
@@ -182,7 +187,7 @@ def obligations_for(repo, contract, case):
             if sob['kind'] in getattr(contract, 'ignore_safety', ()):
                 continue
             out.append(mk_obl(f"{contract.prefix}.safe.{sob['kind']}:{sob['name']}", contract, case, pid,
-                              hyps, sob['formula'], kind=sob['kind'], line=sob['line']))
+                              (sob['hyps'] + bg) if 'hyps' in sob else hyps, sob['formula'], kind=sob['kind'], line=sob['line']))
         for item in posts:
             name, goal = item[0], item[1]
             replay = item[2] if len(item) > 2 else None
